@@ -98,7 +98,7 @@ var hostileValues = []string{"", "0", "-1", "-1px", "1e309", "1e309px", "NaN", "
 	"1e3%", "0%", "0px", "0.0001px", "99999999999px", "\"", "a\"b", "<", "full-width", "true", "false", "-0", "+5px", ".5px", "5.px", "1e-400px", "100%%", "% 5", "auto",
 	// placeholders and format directives: values that templates, formatters and regexp replacements give a meaning to
 	"[[URL]]", "https://x/?next=[[URL]]", "{{url}}", "%s", "%d%n%v", "%!s(MISSING)", "$1", "${1}x", "\\1", "{0}", "<%= x %>", "[[", "]]", "[[URL]][[URL]]",
-	"10px 10px ", " 10px", "10px  20px", "10px\t20px", "10px,20px", "calc(100% - 10px)", "var(--x)", "10PX", "10Px 5pX"}
+	" ", "\t\n", "10px 10px ", " 10px", "10px  20px", "10px\t20px", "10px,20px", "calc(100% - 10px)", "var(--x)", "10PX", "10Px 5pX"}
 
 // legalContext returns a document with the element `tag attrs` placed where MJML allows it.
 func legalContext(tag, attrs, head string) string {
@@ -452,6 +452,17 @@ func runC06(res *Result, tier string, seed int64, replay string) {
 			res.Sample(map[string]string{"kind": "hostile-value", "tag": c.tag, "attr": c.attr, "value": short(c.val, 30)})
 		}
 	})
+	// a blank value next to ALL the other attributes of the component at their typical values (the attribute that makes the
+	// component look at the blank one is among them: background-size next to background-url, …)
+	if replay == "" {
+		var blanks []leafDoc
+		for _, d := range attrSweepDocs() {
+			if strings.HasPrefix(d.desc, "attr-blank") {
+				blanks = append(blanks, d)
+			}
+		}
+		parallel(16, len(blanks), func(i int) { run("blank-among-all", blanks[i].desc, blanks[i].src, true) })
+	}
 	// hostile values × the shape of the element's children: a container with no children at all, with raw content only, and
 	// with many children (divisions by a child count, "first / last child" indexing, width shares)
 	{
